@@ -240,7 +240,7 @@ Qed.
    l = ren_position of the model the results are the model's ren_off / ren_pos / ren_next / ren_cursor
    (C17_tr_ren_models, by reflexivity).  ren_position itself (the widths, the reordering) has no translation
    theorem: it stays tied by correspondence; the Example discharges pos_call by RUNNING the translated
-   ren_position. *)
+   ren_position (getg / getm name the pointer and the memory a call returns, retv its value). *)
 From NV Require Import TrRen2.
 
 Theorem C17_tr_ren_noeol : forall m b s off d fuel, globals_at m ->
@@ -316,17 +316,20 @@ Example C17_tr_ren_rel_nonvacuous :
   let b := length cglobals in
   let m := cglobals ++ [cstr_block (zb s)] in
   let l := [0; 1; 8; 9] in
+  let r1 := callf cprog 100 9 F_ren_position [VPtr b 0] m in                                   (* the call made by ren_next / ren_cursor *)
+  let r2 := callf cprog 100 8 F_ren_position [VPtr b 0] (CLiteProps.upd (getm r1) (getg r1) []) in   (* by ren_off inside ren_next (pos freed) *)
+  let r3 := callf cprog 100 8 F_ren_position [VPtr b 0] (getm r1) in                           (* by ren_off inside ren_cursor (pos live) *)
   l = ren_position (fun _ ord => ord) {| xorder := 1; xlim := 256 |} s /\
   globals_at m /\ str_at m b s /\ nonul s /\ ints_ok l /\ next_ok l false /\ prev_ok l false /\
   (forall q, (q <= length s)%nat -> (q + uc_len_b (nthb s q) - 1 <= length s)%nat) /\
-  (exists g m1 g' m3 g'' m3',
-     pos_call 100 9 m b s l g m1 /\ pos_call 100 8 (CLiteProps.upd m1 g []) b s l g' m3 /\
-     pos_call 100 8 m1 b s l g'' m3' /\ int_arr_at m3' g l /\ g <> g'') /\
-  (exists m', callf cprog 100 10 F_ren_off [VPtr b 0; VInt 5] m = Ok (VInt 1, m')) /\
-  (exists m', callf cprog 100 10 F_ren_pos [VPtr b 0; VInt 2] m = Ok (VInt 8, m')) /\
-  (exists m', callf cprog 100 10 F_ren_next [VPtr b 0; VInt 1; VInt 1] m = Ok (VInt 8, m')) /\
-  (exists m', callf cprog 100 10 F_ren_cursor [VPtr b 0; VInt 5] m = Ok (VInt 7, m')) /\
-  callf cprog 100 10 F_ren_noeol [VPtr b 0; VInt 7] m = Ok (VInt 2, m) /\
+  (pos_call 100 9 m b s l (getg r1) (getm r1) /\
+   pos_call 100 8 (CLiteProps.upd (getm r1) (getg r1) []) b s l (getg r2) (getm r2) /\
+   pos_call 100 8 (getm r1) b s l (getg r3) (getm r3) /\ int_arr_at (getm r3) (getg r1) l /\ getg r1 <> getg r3) /\
+  retv (callf cprog 100 10 F_ren_off [VPtr b 0; VInt 5] m) = Ok (VInt 1) /\
+  retv (callf cprog 100 10 F_ren_pos [VPtr b 0; VInt 2] m) = Ok (VInt 8) /\
+  retv (callf cprog 100 10 F_ren_next [VPtr b 0; VInt 1; VInt 1] m) = Ok (VInt 8) /\
+  retv (callf cprog 100 10 F_ren_cursor [VPtr b 0; VInt 5] m) = Ok (VInt 7) /\
+  retv (callf cprog 100 10 F_ren_noeol [VPtr b 0; VInt 7] m) = Ok (VInt 2) /\
   ren_off (fun _ ord => ord) {| xorder := 1; xlim := 256 |} s 5 = 1%nat /\
   ren_next (fun _ ord => ord) {| xorder := 1; xlim := 256 |} s 1 1 = 8 /\
   ren_cursor (fun _ ord => ord) {| xorder := 1; xlim := 256 |} s 5 = 7 /\ ren_noeol s 7 = 2.
@@ -338,18 +341,7 @@ Proof.
   split; [apply ints_ok_dec; reflexivity|]. split; [apply next_ok_dec; reflexivity|]. split; [apply prev_ok_dec; reflexivity|].
   split; [intros [|[|[|[|q]]]] H; vm_compute in H |- *; try (repeat constructor); exfalso; repeat (apply le_S_n in H); inversion H|].
   split.
-  { set (m := cglobals ++ [cstr_block (zb [97; 9; 98]%N)]).
-    let r := eval vm_compute in (callf cprog 100 9 F_ren_position [VPtr (length cglobals) 0] m) in
-    match r with Ok (VPtr ?g _, ?m1) =>
-      exists g, m1;
-      let r2 := eval vm_compute in (callf cprog 100 8 F_ren_position [VPtr (length cglobals) 0] (CLiteProps.upd m1 g [])) in
-      match r2 with Ok (VPtr ?g' _, ?m3) =>
-        exists g', m3;
-        let r3 := eval vm_compute in (callf cprog 100 8 F_ren_position [VPtr (length cglobals) 0] m1) in
-        match r3 with Ok (VPtr ?g'' _, ?m3') => exists g'', m3' end
-      end
-    end.
-    unfold pos_call.
-    repeat split; try (vm_compute; reflexivity); try (vm_compute; intro H; discriminate H). }
-  repeat split; try (eexists; vm_compute; reflexivity); vm_compute; reflexivity.
+  { unfold pos_call.
+    repeat split; try (apply okptr_eq); try (vm_compute; reflexivity); vm_compute; intro H; discriminate H. }
+  repeat split; vm_compute; reflexivity.
 Qed.
